@@ -227,9 +227,15 @@ Inductive step :=
 | SMapWithSide (side : list val) (h : sfun)            (* U -> U : map_with_side *)
 | SFilterWithSide (side : list val) (q : spred)        (* any shape : filter_with_side *)
 | SMapWithSideMap (pairs : list val) (dflt : Z)        (* U -> U : map_with_side_map, lookup or default *)
-| STryMap (f : efun) (p : pfun).                       (* U -> Result : try_map, Ok (f x) when p x, else Err;
+| STryMap (f : efun) (p : pfun)                        (* U -> Result : try_map, Ok (f x) when p x, else Err;
                                                           Ok v is VSome v, Err is VNone. Only as the
                                                           LAST step (the harness converts after collecting) *)
+| SDebug (k : nat)                                     (* any shape, identity: the debug taps of
+                                                          src/testing/debug.rs: 0 debug_inspect,
+                                                          1 debug_inspect_with, 2 debug_count,
+                                                          3.. debug_sample(k - 3) *)
+| SCustomMap (f : efun).                               (* U -> U : apply_transform with a user-written
+                                                          DynOp (default capability hints) mapping f *)
                                        (* KV x KV -> KV : join then (k,(v,w)) -> (k, Pair v w) *)
 
 (* the second (right) source of a join is always a from_vec of (Val, Val) rows *)
@@ -313,6 +319,8 @@ Fixpoint compile_steps (fuel : nat) (steps : list step) (s : cstate) : cstate :=
         | SMapWithSideMap pairs dflt => push_op s (op_map t TU (side_lookup pairs dflt)) TU
         | STryMap f p =>
             push_op s (op_map t TRES (fun x => if pf p x then VSome (ef f x) else VNone)) TRES
+        | SDebug _ => push_op s (op_map t t (fun x => x)) t
+        | SCustomMap f => push_op s (op_map t TU (ef f)) TU
         end in
       compile_steps fuel' rest s'
   end
